@@ -401,9 +401,28 @@ def apply_callee_contract(interp, cands, mod, cname, fn, args, kwargs, ftxt):
                 rsp = c.returns
                 res = instantiate(interp, rsp, ctx.fresh_name('ret'), {})
             cenv2 = interp.clause_env(env)
+            if res is None:
+                # `same_object(result, <expr>)` names the returned object (in-place operators return self)
+                for cl in c.ensures:
+                    for sub in interp.conjuncts(interp.parse_clause(cl)):
+                        if isinstance(sub, ast.Call) and isinstance(sub.func, ast.Name) and sub.func.id == 'same_object' \
+                                and len(sub.args) == 2 and isinstance(sub.args[0], ast.Name) and sub.args[0].id == 'result':
+                            interp.pure += 1
+                            try:
+                                res = interp.eval(sub.args[1], cenv2)
+                            finally:
+                                interp.pure -= 1
             cenv2['result'] = res
             interp.old_env = pre
-            interp.assume_clauses(c.ensures, cenv2)
+            interp.definitional_ok = True
+            interp.defined_results = set()
+            try:
+                interp.assume_clauses(c.ensures, cenv2)
+            except Infeasible:
+                # a postcondition that is concretely False at this call site would silently kill the path
+                raise Unsupported('postcondition of callee contract %s is False at this call (contract cannot be applied here)' % c.name)
+            finally:
+                interp.definitional_ok = False
             return res
         finally:
             interp.frames.pop()
@@ -809,6 +828,7 @@ def verify_contract(c, registry, overrides=None, timeout_ms=10000, log=None, wan
         work = [[]]
         npaths = 0
         first = True
+        dead_in_cfg = 0
         while work:
             decisions = work.pop()
             npaths += 1
@@ -898,8 +918,13 @@ def verify_contract(c, registry, overrides=None, timeout_ms=10000, log=None, wan
                     it.frames.pop()
             except Infeasible:
                 outcome = ('infeasible', None)
-                if outcome_is_first(res, label, npaths):
-                    res.vacuity.append({'config': label, 'requires_satisfiable': 'unsat'})
+                res.infeasible_paths = getattr(res, 'infeasible_paths', 0) + 1
+                if first:
+                    # requires unsatisfiable in this configuration
+                    if outcome_is_first(res, label, npaths):
+                        res.vacuity.append({'config': label, 'requires_satisfiable': 'unsat'})
+                else:
+                    dead_in_cfg += 1
             except Unsupported as e:
                 res.fallback = 'unsupported: %s (config %s)' % (e, label)
                 work = []
@@ -963,6 +988,11 @@ def verify_contract(c, registry, overrides=None, timeout_ms=10000, log=None, wan
                 break
         res.paths += npaths
         if res.error or res.fallback:
+            break
+        if npaths and dead_in_cfg == npaths and not work:
+            # requires satisfiable but every path died: the hypotheses collected on the way (callee
+            # postconditions, assumed contracts, axioms) are inconsistent -> nothing was checked
+            res.error = 'every path infeasible in configuration %s (inconsistent hypotheses; nothing checked)' % label
             break
     if res.vacuity and all(v['requires_satisfiable'] == 'unsat' for v in res.vacuity):
         res.error = 'requires unsatisfiable in every configuration (vacuous contract)'
